@@ -17,7 +17,10 @@ Inductive bexpr :=
 | BELocal (x : string)                 (* key / value *)
 | BEReadonly                           (* self._readonly *)
 | BEQueued (k : bexpr)                 (* any(k == key for k, _ in self._write_queue) *)
-| BEOverBudget.                        (* self.used_memory > self._bufsize      (used_memory is self._usedmem) *)
+| BEOverBudget                         (* self.used_memory > self._bufsize      (used_memory is self._usedmem) *)
+| BEHasUkv                             (* hasattr(self, "_ukvfile") *)
+| BENot (e : bexpr)
+| BEStr (s : string) | BENone.         (* constants passed to the UKVFile: a mode, None *)
 
 Inductive bstmt :=
 | BSkip
@@ -37,7 +40,8 @@ Inductive bstmt :=
 | BUkvCall (p : stmt) (args : list (string * bexpr))     (* self._ukvfile.<method>(args)      p: the translated method *)
 | BUkvCallRet (p : stmt) (args : list (string * bexpr))  (* return self._ukvfile.<method>(args) *)
 | BKeysFromUkv (e : expr)              (* self._keys = {k.decode() for k in self._ukvfile.keys()}   e: what keys() returns *)
-| BKeysAddQueued.                      (* self._keys.update(k for k, _ in self._write_queue) *)
+| BKeysAddQueued                       (* self._keys.update(k for k, _ in self._write_queue) *)
+| BUkvNew (p : stmt) (args : list (string * bexpr)).    (* self._ukvfile = UKVFile(...)      p: the translated __init__ *)
 
 Record bstate := mkbs {
   inner : state;                       (* the UKVFile object and the file *)
@@ -56,14 +60,25 @@ Definition berr_of_exn (x : exn) : berr :=
 Definition beval_bytes (s : bstate) (e : bexpr) : option bytes :=
   match e with BELocal x => bloc s x | _ => None end.
 
-Definition beval_bool (s : bstate) (e : bexpr) : option bool :=
+Fixpoint beval_bool (s : bstate) (e : bexpr) : option bool :=
   match e with
   | BEReadonly => Some (bro s)
   | BEQueued k => match beval_bytes s k with
                   | Some kb => Some (existsb (fun p => beq kb (fst p)) (bq s))
                   | None => None end
   | BEOverBudget => Some (Z.ltb (bbuf s) (bused s))
-  | BELocal _ => None
+  | BEHasUkv => Some (has_inner s)
+  | BENot e1 => match beval_bool s e1 with Some x => Some (negb x) | None => None end
+  | _ => None
+  end.
+
+(* an argument handed to a method of the inner UKVFile *)
+Definition beval_val (s : bstate) (e : bexpr) : option val :=
+  match e with
+  | BELocal x => match bloc s x with Some b => Some (VBytes b) | None => None end
+  | BEStr t => Some (VStr t)
+  | BENone => Some VNone
+  | _ => None
   end.
 
 Definition set_bloc (s : bstate) (x : string) (v : bytes) : bstate :=
@@ -76,8 +91,8 @@ Definition restore_loc (s : bstate) (l : string -> option bytes) : bstate :=
 Fixpoint bind_inner (s : bstate) (st : state) (args : list (string * bexpr)) : option state :=
   match args with
   | [] => Some st
-  | (p, e) :: rest => match beval_bytes s e with
-                      | Some b => bind_inner s (set_local st p (VBytes b)) rest
+  | (p, e) :: rest => match beval_val s e with
+                      | Some v => bind_inner s (set_local st p v) rest
                       | None => None end
   end.
 
@@ -163,4 +178,15 @@ Fixpoint bexec (fuel : nat) (c : bstmt) (s : bstate) {struct c} : bstate * boutc
       end
   | BKeysAddQueued =>
       (mkbs (inner s) (has_inner s) (bq s) (set_union (bks s) (map fst (bq s))) (bused s) (bbuf s) (bro s) (bloc s), BONormal)
+  | BUkvNew p args =>
+      (* a new object: no attributes, no stream yet; the attribute _ukvfile is set only if the constructor returns *)
+      match bind_inner s (mkst (file (inner s)) (mks 0 false true) empty_env empty_env) args with
+      | None => (s, BORaise BAttr)
+      | Some st =>
+          let '(st', o) := exec fuel p st in
+          match o with
+          | ORaise x => (with_inner s (mkst (file st') (strm (inner s)) (attrs (inner s)) (locals (inner s))), BORaise (berr_of_exn x))
+          | _ => (mkbs st' true (bq s) (bks s) (bused s) (bbuf s) (bro s) (bloc s), BONormal)
+          end
+      end
   end.
